@@ -21,11 +21,15 @@ from typing import Any, List, Optional, Tuple
 from mc.explore import Abort
 from mc.pdfgen import HexStr, Name, Ref
 
-__all__ = ["Real", "Name", "Ref", "HexStr", "Speller", "expected", "WS", "DELIM"]
+__all__ = ["Seq", "Real", "Name", "Ref", "HexStr", "Speller", "expected", "WS", "DELIM"]
 
 WS = b"\x00\t\n\x0c\r "
 DELIM = b"()<>[]{}/%"
 _REGULAR_PRINTABLE = frozenset(c for c in range(0x21, 0x7F) if c not in DELIM)
+
+
+class Seq(list):
+    """A sequence of top-level objects (what a content stream or an object stream holds), not an array."""
 
 
 class Real:
@@ -44,6 +48,8 @@ class Real:
 # expected reading (the representation map the statement allows)
 def expected(v: Any) -> Any:
     """Canonical form of what a reader must hand back for model value ``v``."""
+    if isinstance(v, Seq):
+        return ("seq", tuple(expected(x) for x in v))
     if v is None:
         return ("null",)
     if isinstance(v, bool):
@@ -131,6 +137,8 @@ class Speller:
         self.lead = b""
         self.trail = b""
         self.body_start = 0
+        self.item_starts: List[int] = []  # offsets of the items of a Seq
+        self._mark = False
 
     # ---- choice helper
     def pick(self, label: str, alts) -> bytes:
@@ -163,6 +171,9 @@ class Speller:
 
     def tok(self, kind: str, body: bytes) -> None:
         s = self._sep(kind)
+        if self._mark:
+            self.item_starts.append(len(self.out) + len(s))
+            self._mark = False
         if self.prev is None:
             self.lead = s
             self.first_kind = kind
@@ -181,6 +192,11 @@ class Speller:
 
     # ---- values
     def value(self, v: Any) -> None:
+        if isinstance(v, Seq):
+            for e in v:
+                self._mark = True
+                self.value(e)
+            return
         if v is None:
             self.tok("kw", b"null")
         elif v is True:
